@@ -224,6 +224,23 @@ func includeSets() []modset {
 		{"include:import-used-above:nested-twice:module", map[string]string{"a": strings.Replace(mod("s1"), " container ca {", " leaf u { type x:tx; } container ca {", 1), "s1": sub("s1", "a", " container cs1;", "s2"), "s2": sub("s2", "a", " container cs2;", "s3"), "s3": sub("s3", "a", " import x { prefix x; } container cs3;"), "x": modX}, "any"},
 		{"include:import-used-above:nested-twice:submodule", map[string]string{"a": mod("s1", "s2", "s3"), "s1": sub("s1", "a", " container cs1 { leaf u { type x:tx; } }", "s2"), "s2": sub("s2", "a", " container cs2;", "s3"), "s3": sub("s3", "a", " import x { prefix x; } container cs3;"), "x": modX}, "any"},
 		{"include:import-used-above:sibling", map[string]string{"a": mod("s1", "s2"), "s1": sub("s1", "a", " container cs1 { leaf u { type x:tx; } }"), "s2": sub("s2", "a", " import x { prefix x; } container cs2;"), "x": modX}, "any"},
+		// a grouping that uses a more obsolete one (ill-formed), itself used from a deprecated grouping of
+		// another submodule: refused whichever submodule is expanded first
+		{"include:status-reference-across-submodules", map[string]string{"a": mod("s1", "s2"),
+			"s1": sub("s1", "a", " grouping g2 { status deprecated; leaf x2 { type string; } } grouping g1 { uses g2; }"),
+			"s2": sub("s2", "a", " grouping g3 { status deprecated; uses g1; } container cs2 { status deprecated; uses g3; }", "s1")}, "any"},
+		{"include:status-reference-across-submodules:unused", map[string]string{"a": mod("s1", "s2"),
+			"s1": sub("s1", "a", " grouping g2 { status deprecated; leaf x2 { type string; } } grouping g1 { uses g2; }"),
+			"s2": sub("s2", "a", " grouping g3 { status deprecated; uses g1; }", "s1")}, "any"},
+		{"include:status-reference-across-submodules:typedef", map[string]string{"a": mod("s1", "s2"),
+			"s1": sub("s1", "a", " typedef t2 { status deprecated; type string; } grouping g1 { leaf y { type t2; } }"),
+			"s2": sub("s2", "a", " grouping g3 { status deprecated; uses g1; } container cs2 { status deprecated; uses g3; }", "s1")}, "any"},
+		{"import:status-reference-across-modules", map[string]string{
+			"a": "module a { namespace \"urn:a\"; prefix a; import b { prefix b; } grouping g3 { status deprecated; uses b:g1; } container ca { status deprecated; uses g3; } }",
+			"b": "module b { namespace \"urn:b\"; prefix b; grouping g2 { status deprecated; leaf x2 { type string; } } grouping g1 { uses g2; } }"}, "any"},
+		{"import:status-reference-across-modules:unused", map[string]string{
+			"a": "module a { namespace \"urn:a\"; prefix a; import b { prefix b; } grouping g3 { status deprecated; uses b:g1; } }",
+			"b": "module b { namespace \"urn:b\"; prefix b; grouping g2 { status deprecated; leaf x2 { type string; } } grouping g1 { uses g2; } }"}, "any"},
 		{"include:cycle", map[string]string{"a": mod("s1", "s2"), "s1": sub("s1", "a", " container cs1;", "s2"), "s2": sub("s2", "a", " container cs2;", "s1")}, "error"},
 		{"include:self", map[string]string{"a": mod("s1"), "s1": sub("s1", "a", " container cs1;", "s1")}, "error"},
 		// include cycles among submodules that belong to the module but that the module's own include
